@@ -275,7 +275,7 @@ class Gen:
         return Frag([ch * n + lang] + body + [ch * n], [{"m": m, "off": 0, "kind": "literal_block", "chain": []}], tick=n)
 
     def b_fence_lang(self, depth, top):
-        return self.b_fence(depth, top, self.r.choice(["python", "c", "unknownlang", "text", "{.cls} python"]) if True else "")
+        return self.b_fence(depth, top, self.r.choice(["python", "c", "unknownlang", "text", "python extra words"]))
 
     def b_html(self, depth, top):
         m = self.marker()
